@@ -86,8 +86,19 @@ type MemConn struct {
 	// Tap, when set, sees every buffer written by this end.
 	Tap func(p []byte)
 	ops int
-	// NOps counts Read/Write calls that started.
+	// OpLog records every completed Read/Write of this end.
+	OpLog []OpRec
+	// FaultAt is the index of the operation at which a fault was injected (-1: none).
+	FaultAt int
+	inWrite bool
 	local, remote addr
+}
+
+// OpRec is one completed I/O operation of an end.
+type OpRec struct {
+	Kind string // "read" or "write"
+	N    int
+	Err  bool
 }
 
 type addr struct{ network, s string }
@@ -101,8 +112,8 @@ var pairSeq int
 func NewPair(nameA, nameB string) (*MemConn, *MemConn) {
 	pairSeq++
 	ab, ba := &half{}, &half{}
-	a := &MemConn{name: nameA, rd: ba, wr: ab}
-	b := &MemConn{name: nameB, rd: ab, wr: ba}
+	a := &MemConn{name: nameA, rd: ba, wr: ab, FaultAt: -1}
+	b := &MemConn{name: nameB, rd: ab, wr: ba, FaultAt: -1}
 	a.peer, b.peer = b, a
 	a.local, a.remote = addr{"tcp", nameA}, addr{"tcp", nameB}
 	b.local, b.remote = addr{"tcp", nameB}, addr{"tcp", nameA}
@@ -130,7 +141,11 @@ func (c *MemConn) fault(kind string) *Fault {
 	if c.OnOp == nil {
 		return nil
 	}
-	return c.OnOp(kind, idx)
+	f := c.OnOp(kind, idx)
+	if f != nil && c.FaultAt < 0 {
+		c.FaultAt = idx
+	}
+	return f
 }
 
 func (c *MemConn) applyCloseFault(f *Fault) {
@@ -187,10 +202,15 @@ func (c *MemConn) Read(p []byte) (int, error) {
 	}
 	copy(p, c.rd.data[:n])
 	c.rd.data = c.rd.data[n:]
+	if c.inWrite {
+		vrt.Flag("io:read-completed-while-own-write-in-progress")
+	}
 	if f != nil && f.Kind == "data+eof" {
 		c.broken = io.EOF
+		c.OpLog = append(c.OpLog, OpRec{"read", n, true})
 		return n, io.EOF
 	}
+	c.OpLog = append(c.OpLog, OpRec{"read", n, false})
 	return n, nil
 }
 
@@ -225,8 +245,11 @@ func (c *MemConn) Write(p []byte) (int, error) {
 	if c.Tap != nil {
 		c.Tap(append([]byte(nil), q...))
 	}
+	c.OpLog = append(c.OpLog, OpRec{"write", len(q), ferr != nil})
 	// second point: the peer may react before Write has returned
+	c.inWrite = true
 	vrt.Yield()
+	c.inWrite = false
 	return len(q), ferr
 }
 
